@@ -231,5 +231,8 @@ func (g *Globals) load(e *Eval, gl *ssa.Global, t types.Type) AV {
 			return iv
 		}
 	}
+	if e.Touched != nil {
+		e.Touched[gl] = true
+	}
 	return TopV{"global " + gl.Name()}
 }
